@@ -34,7 +34,7 @@ LEVEL_NOTE = 'trusted: numpy implementations of the preprocess chain / selection
 ASSUMPTIONS = [
     'only row-wise preprocesses are chained (batch-mean center/standardize depend on the batch by documentation)',
     'automatic class sets are predicted from the first recorded batch (frozen from the first batch by design, as the property states)',
-    'recorded blocks are compared with rtol/atol 1e-10 (row-wise float operations are deterministic per row; the margin only covers library-internal SIMD differences)',
+    'recorded blocks are compared with a relative tolerance of 4 eps of the analysis precision (at least 1e-10): rows are identified, an early conversion to the precision is not an alarm',
 ]
 
 ANALYSES = ['cpa', 'dpa', 'anova', 'nicv', 'snr', 'mia']
@@ -148,7 +148,7 @@ def _model(case):
 def _make_analysis(case, log):
     mask = case['mask']
     words = case['words']
-    kw = {'precision': case['precision']}
+    kw = {'precision': case.get('mia_precision') or case['precision']}
     if case['mode'] == 'attack':
         @scared.attack_selection_function(guesses=np.array(case['guesses'], dtype='uint8'), words=words)
         def sf(plaintext, guesses):
@@ -234,7 +234,9 @@ def _check(ctx, case):
             if o + b > N:
                 raise Violation('run #%d batch %d: rows %d..%d fed but the set has only %d traces (a trace is used more than once)' % (ri + 1, bi, o, o + b, N), case)
             exp_t = X[o:o + b]
-            if t.shape != exp_t.shape or not np.allclose(t.astype('float64'), exp_t.astype('float64'), rtol=1e-10, atol=1e-10, equal_nan=True):
+            # a conversion of the batch to the analysis precision before the update is not observable through the results: allowed
+            mtol = max(1e-10, 4 * float(np.finfo(case['precision']).eps)) if not case.get('mia_precision') else 1e-10
+            if t.shape != exp_t.shape or not np.allclose(t.astype('float64'), exp_t.astype('float64'), rtol=mtol, atol=mtol, equal_nan=True):
                 raise Violation('run #%d batch %d: the traces fed to the distinguisher are not rows %d..%d of preprocesses(samples[:, frame]) (frame %s, chain %s): got shape %s first row %s, expected shape %s first row %s' % (
                     ri + 1, bi, o, o + b, case['frame'], chain, t.shape, np.asarray(t[0]).tolist()[:6], exp_t.shape, np.asarray(exp_t[0]).tolist()[:6]), case)
             exp_d = D[o:o + b]
@@ -281,7 +283,7 @@ def _check_results(ctx, case, an, X, D, first_block_data):
     if a == 'mia':
         classes = list(case['partitions']) if case['partitions'] is not None else auto_classes(int(first_block_data.max()))
         edges = [float(e) for e in case['edges']]
-        atol = 1e-9 if res.dtype == np.float64 else 5e-5
+        atol = 1e-9 if (res.dtype == np.float64 and (case.get('mia_precision') or case['precision']) != 'float32') else 5e-5
         for j in range(d2.shape[1]):
             labs = [int(v) for v in d2[:, j]]
             for i in range(s):
@@ -421,6 +423,7 @@ def cases(draw, analysis, precision):
         else:
             case['partitions'] = None      # determined by the first batch (predicted from the recorded first block)
     if analysis == 'mia':
+        case['mia_precision'] = draw(st.sampled_from([None, 'uint32', 'uint32', 'int64']))     # MIA's precision is the dtype of its counters
         allx = np.concatenate([_np_chain(r['samples'] if frame is None else r['samples'][:, frame], chain) for r in runs], axis=0).astype('float64')
         lo = math.floor(float(np.nanmin(allx))) - draw(st.integers(0, 1))
         hi = math.ceil(float(np.nanmax(allx))) + draw(st.integers(0, 1))
